@@ -131,11 +131,11 @@ def check(case):
         mine = byfun.get(id(ev), [])
         truth = EV.true_crossings(ev, P, case["t0"], case["tf"]) if mine else []
         G = ev.natural_scale(P)
-        if mine and not truth:
+        if mine:
             gmax = max(abs(ev.g_exact(P, tt)) for tt in np.linspace(case["t0"], case["tf"], 200))
             if gmax <= 1e-9 * abs(ev.s) * G:
                 labels.append("degenerate_event_function")     # g vanishes identically along the trajectory: nothing to judge
-                continue
+                continue                                       # (the scan for true crossings then only sees rounding noise)
         used = {}
         for rec in mine:
             te = float(rec.t)
@@ -209,8 +209,7 @@ def check(case):
                     yy = np.asarray(O.hermite(t[k], t[k + 1], y[k], y[k + 1], fk, fk1, tt), dtype=np.float64)
                     dd = None
                     if ev.kind == "deriv":
-                        d2 = 1e-3 * dstep
-                        dd = (np.asarray(O.hermite(t[k], t[k + 1], y[k], y[k + 1], fk, fk1, tt + d2), dtype=np.float64) - np.asarray(O.hermite(t[k], t[k + 1], y[k], y[k + 1], fk, fk1, tt - d2), dtype=np.float64)) / (2 * d2)
+                        dd = np.asarray(O.hermite_deriv(t[k], t[k + 1], y[k], y[k + 1], fk, fk1, tt), dtype=np.float64)
                     return ev.s * (ev.h(tt, yy, dd) - ev.c)
                 gb, ga = g_num(te - dstep), g_num(te + dstep)
                 if gb * ga < 0 and not rich:
